@@ -21,7 +21,9 @@ import (
 	"fmt"
 	"math/big"
 	"net"
+	"strings"
 	"sync"
+	"sync/atomic"
 	"time"
 
 	comm "github.com/IBM/TSS/net"
@@ -196,6 +198,24 @@ func (e *netEnv) client(to uint16, domain string, auth func([]byte) comm.Handsha
 
 func (e *netEnv) clientAddr(to uint16, addr, domain string, auth func([]byte) comm.Handshake) comm.SocketRemoteParties {
 	rp := comm.NewSocketRemoteParty(comm.PartyConnectionConfig{AuthFunc: auth, Domain: domain, Id: int(to), Endpoint: addr, TlsCAs: e.pool}, common.Nolog{})
+	return comm.SocketRemoteParties{int(to): rp}
+}
+
+// dropCounter is a silent log sink that counts the sender's reports of messages it gave up on (queue timeout, failed write).
+type dropCounter struct {
+	common.Nolog
+	c int64
+}
+
+func (d *dropCounter) Warnf(f string, a ...interface{}) {
+	if strings.Contains(f, "dropping message") || strings.Contains(f, "failed sending header") || strings.Contains(f, "failed sending data") {
+		atomic.AddInt64(&d.c, 1)
+	}
+}
+func (d *dropCounter) n() int64 { return atomic.LoadInt64(&d.c) }
+
+func (e *netEnv) clientAddrLog(to uint16, addr, domain string, auth func([]byte) comm.Handshake, lg comm.Logger) comm.SocketRemoteParties {
+	rp := comm.NewSocketRemoteParty(comm.PartyConnectionConfig{AuthFunc: auth, Domain: domain, Id: int(to), Endpoint: addr, TlsCAs: e.pool}, lg)
 	return comm.SocketRemoteParties{int(to): rp}
 }
 
